@@ -315,7 +315,9 @@ MINIMAL = {'cm': 0, 't': '', 's': '', 'tid': 0, 'ns': 0, 'mct': 0, 'b': b'', 'pi
 # generators (everything from rng)
 
 WORDS = ['', 'a', 'kernel', 'com.apple.network', 'connection', '%{public}s', 'SpringBoard', '/usr/libexec/logd',
-         'é', '日本語', 'tab\there', 'quote"back\\slash', 'line\nbreak', '\x01\x7f', '😀 emoji', 'lp', 'p a']
+         'é', '日本語', 'tab\there', 'quote"back\\slash', 'line\nbreak', '\x01\x7f', '😀 emoji', 'lp', 'p a',
+         # texts that LOOK like what another field holds: conversions with written-out sizes, numbers, key names
+         '%-5.3d', '%{public}08llx', '%{private}12.4f', '%*.*s', '%.*P', '%3$-7.2lu', '12', '0', '-1', '0x10', 'w', 'rs', 'None', 'True']
 
 
 def gen_strings(rng, n=None):
@@ -381,8 +383,8 @@ def gen_placeholder(rng, S, subset=None):
     p = {}
     for k in keys:
         p[k] = [gen_idx(rng, S) for _ in range(rng.choice([0, 1, 1, 2, 3]))] if k == 't' else gen_idx(rng, S)
-    p['w'] = gen_int(rng)
-    p['p'] = gen_int(rng)
+    p['w'] = gen_int(rng) if rng.random() < 0.7 else 0          # 0 is what most records hold: it is a value, not "absent"
+    p['p'] = gen_int(rng) if rng.random() < 0.7 else 0
     return shuffled(rng, p)
 
 
